@@ -95,16 +95,18 @@ def check_filter(ctx, rule, fq, spec, what, attrs=None, which=None,
 
 
 def with_items_predicates(ctx, rule):
-    """Which executions count: started = accepted or still running / idle;
-    more iterations = count > accepted or RUNNING; to re-run = completed and
-    not accepted; done = completed and accepted; cancelled / failed item =
-    accepted and CANCELLED / ERROR."""
-    run = ('RUNNING', 'DELAYED')
+    """Which executions count: an item has been started (and does not have
+    to be started again) when its execution is accepted or not completed -
+    whatever unfinished state it is in (a PAUSED sub-workflow is in flight:
+    F28; the first version of this rule had copied the code's narrower
+    lists); more iterations = count > that selection; to re-run = completed
+    and not accepted; done = completed and accepted; cancelled / failed
+    item = accepted and CANCELLED / ERROR."""
     check_filter(ctx, rule, WIT + '._get_next_start_index',
-                 lambda s, a: a or s in run or s == 'IDLE',
+                 lambda s, a: a or s not in DONE,
                  'items already started')
     check_filter(ctx, rule, WIT + '._has_more_iterations',
-                 lambda s, a: a or s == 'RUNNING',
+                 lambda s, a: a or s not in DONE,
                  'items accepted or in flight')
     check_filter(ctx, rule, WIT + '._get_unaccepted_executions',
                  lambda s, a: (not a) and s in DONE, 'items to re-run')
